@@ -73,6 +73,18 @@ Proof. exact idft_periodic. Qed.
 Theorem dft_shift_zero : forall X n dt k, shift_spectrum X n dt 0 k = X k.
 Proof. exact shift_zero. Qed.
 
+(* the finite Fourier sums invert each other on the stored samples (orthogonality of the
+   roots of unity), so the statement above is about the signal itself: shifting the
+   spectrum of x by m whole samples and transforming back gives x delayed CIRCULARLY by m *)
+Theorem dft_inversion : forall (x : nat -> C) n (j : nat), (j < n)%nat ->
+  idft (dft x n) n (Z.of_nat j) = x j.
+Proof. exact idft_dft. Qed.
+
+Theorem shift_is_circular_delay : forall (x : nat -> C) n dt (m : Z) (j : nat), (j < n)%nat -> dt <> 0 ->
+  idft (shift_spectrum (dft x n) n dt (IZR m * dt)) n (Z.of_nat j)
+  = x (Z.to_nat ((Z.of_nat j - m) mod Z.of_nat n)).
+Proof. exact shift_delays_signal. Qed.
+
 (* -- transfer function to timetraces ------------------------------------------ *)
 (* the delay is split consistently: the nearest whole sample q and a signed remainder of
    at most half a sample *)
